@@ -116,7 +116,8 @@ class Ctx(object):
     def report(self, item, replay):
         """A failing item owned by this property.  `replay`: JSON-able dict that reproduces it."""
         e = self.findings.match(self.prop, item)
-        self.all_items.append({"item": item, "lines": replay.get("lines"), "k": replay.get("stmt_index"), "known": e["id"] if e else None})
+        if len(self.all_items) < 300000:          # (the census of a thorough run is a sample; the counts are kept in full)
+            self.all_items.append({"item": item, "lines": replay.get("lines"), "k": replay.get("stmt_index"), "known": e["id"] if e else None})
         if e is not None:
             self.known_hit.setdefault(e["id"], [0, e])[0] += 1
             return "known"
